@@ -20,7 +20,7 @@ PROPS = {
  },
  "C13": {
   "modules": ["OsmoVerif.Props.C13", "OsmoVerif.Props.C13SigFig", "OsmoVerif.Props.C13Log", "OsmoVerif.Props.C13Exp2"],
-  "min_theorems": 64,
+  "min_theorems": 70,
   "fingerprints": ["Osmomath.MonotonicSqrt*", "Osmomath.SigFigRound", "Osmomath.Exp2", "Osmomath.exp2ChebyshevRationalApprox",
                    "Osmomath.BigDec_LogBase2", "Osmomath.Pow", "Osmomath.PowApprox", "Osmomath.AbsDifferenceWithSign",
                    "Osmomath.BinarySearch*", "Osmomath.ErrTolerance_*"],
@@ -33,11 +33,12 @@ PROPS = {
   "assumptions": ["PARTIAL: NOT theorems: (b) the analytic accuracy of the Exp2 rational approximant |P(X)/Q(X) - 2^X| <= eps0 on [0,1] (explicit hypothesis of "
                   "exp2_rel_error_partial; needs certified interval arithmetic) and the Pow/PowApprox precision (findings F9, F10 show it is false in part); both are decided by "
                   "the engine's oracle against 700-bit references on the sampled points only",
-                  "the 36-digit accuracy of the coded base-change constants logOfEbase2 (log2 e) and tickLogOf2 (log2 1.0001) is an explicit term of ln_abs_error / "
-                  "tickLog_abs_error, not a theorem",
+                  "FALSE as literally stated (witness theorem, tolerated by the oracle through a relative term): TickLog is not within 1e-32*6932 absolutely - the coded constant "
+                  "tickLogOf2 has 33 significant digits, so the result has a relative error 2e-33 (9.2e-28 at x = 2^64)",
                   "proved for all inputs: SigFigRound (half-unit bound sharp for 10^s, +1 ulp truncation for general t, grid form, idempotence s>=1, monotonicity for 10|t, "
                   "exact success condition; witnesses: not monotone/idempotent for t=1 or t not a multiple of ten); LogBase2 |error| <= 89e-36 (documented 1e-32), monotone, total; "
-                  "Ln/TickLog/CustomBaseLog error = base-2 error scaled by the base change + half an ulp, Ln/TickLog monotone; Exp2 rounding error <= 70e-36 against the exact "
+                  "Ln/TickLog/CustomBaseLog error = base-2 error scaled by the base change + half an ulp + the error of the coded constant (bounded by 40-digit enclosures of ln 2, ln 1.0001: "
+                  "Ln <= 63e-36 + 2.1e-37*|log2 x| <= 1e-33 on representable inputs, TickLog <= 6.2e-31 + 1.5e-29*|log2 x|), Ln/TickLog monotone; Exp2 rounding error <= 70e-36 against the exact "
                   "rational function, Exp2 NOT monotone in the last digits (witness); monotone sqrt least-ness + monotonicity, domain guards, Exp2 integer exactness/split, "
                   "binary-search postconditions"],
   "explanation": "theorems over the bit-exact model: discrete clauses by integer arithmetic; LogBase2 and derived logs by a real-valued (Mathlib) error analysis of the 300-iteration "
